@@ -1,6 +1,25 @@
 """Per-property configuration of the supervisor (/verif/check)."""
 
 PROPS = {
+    "C01": {
+        "bin": "px_stream", "budget_ms": 1500, "wall_cap": {"quick": 100, "thorough": 2400},
+        "rule": "stateless sequence exploration: every sequence of d tokens (d<=3) over the per-emulation alphabets (all 256 bytes, the complete CSI final x intermediate x parameter table, "
+                "ESC/DCS/OSC/APS/music/native command tokens, every proper prefix of every token) from every reachable start context (byte prefixes) on the listed screen sizes; "
+                "non-trivial = the run produced at least one error value or panic; states = distinct observable end states (caret, terminal state, cells)",
+        "level_text": "all token sequences up to the stated depth are run on the real parsers, one character at a time under catch_unwind, in killable worker processes; no sampling",
+        "level_note": "covers sequences of <=3 tokens beyond a context (contexts are themselves byte prefixes); characters are U+0000..U+00FF; cases cut by the CPU budget belong to C03 and are not judged here",
+        "technique": "bounded exhaustive (stateless) exploration of operation sequences on the implementation, depth-bounded, with non-initial start states",
+        "assumptions": ["a case cut by the per-case CPU/memory budget is counted as cut (C03's subject), not judged"],
+    },
+    "C09": {
+        "bin": "px_stream", "budget_ms": 1500, "wall_cap": {"quick": 100, "thorough": 2400},
+        "rule": "same explorer as C01 minus text-area resize tokens, plus every token pair repeated until 3*H line changes happened (deterministic replacement of the random scrollback-filling streams); "
+                "invariant monitor after every character; non-trivial = the run produced at least one error value; states = distinct observable end states",
+        "level_text": "invariant (cursor inside the visible window; fixed 40x24 grid for Viewdata/Mode 7) evaluated after every character of every explored sequence on the real parsers",
+        "level_note": "depth <=3 tokens beyond a context; monitoring stops after a ResizeTerminal action; W,H are read from TerminalState, first visible line from Buffer",
+        "technique": "bounded exhaustive exploration of operation sequences with an invariant monitor on every transition",
+        "assumptions": ["a case cut by the per-case CPU/memory budget is counted as cut (C03's subject), not judged"],
+    },
     "C18": {
         "bin": "px_finite", "max_shards": 4,
         "rule": "complete enumeration of 3x256 attribute bytes, all (fg,bg,blink,bold) tuples expressible in each mode, 4x256 code page codes, 4x63 typed characters; "
@@ -26,6 +45,8 @@ PROPS = {
 HOOK_COMMITS = []
 
 ENGINES = [
+    {"name": "px_stream", "path": "harness/src/bin/px_stream.rs", "serves_properties": ["C01", "C09"],
+     "kind_free_text": "stateless depth-bounded sequence explorer over token alphabets of the terminal emulations, start contexts, per-character oracle"},
     {"name": "px_finite", "path": "harness/src/bin/px_finite.rs", "serves_properties": ["C18", "C19"],
      "kind_free_text": "complete enumeration of finite codec / CRC domains against bitwise reference models"},
 ]
